@@ -245,7 +245,7 @@ func (dt DateTime) Sub(input Quantity) (DateTime, error) {
 		if err != nil {
 			return DateTime{}, err
 		}
-		duration = roundToDateTimePrecision(dateTimeMap[dt.l], duration)
+		duration = roundToLayout(dt.l, roundToDateTimePrecision(dateTimeMap[dt.l], duration))
 		result = dt.dateTime.Add(-duration)
 	}
 	return DateTime{result, dt.l}, nil
